@@ -440,7 +440,8 @@ def queryRW (t : Tables) (mode64 : Bool) (inst : Inst) (ops : List Opnd) : Excep
         let s1 := if o1.rmSize != 0 then o1.rmSize else 16
         let s0 := s1 / 2 ^ shift
         let a := OpRW.reset fW s0
-        okOut (ret (third ++ [(0, if o0.isVec then zeroExtendAvxVec a else a), (1, OpRW.reset (fR + fMibRead) s1)]))
+        -- repaired code (fixes/C12-2.patch): this branch ends in rw_handle_avx512 like its siblings (pinned tree: plain kOk)
+        okOut (handleAvx512 inst ii.implicitZ (ret (third ++ [(0, if o0.isVec then zeroExtendAvxVec a else a), (1, OpRW.reset (fR + fMibRead) s1)])))
       else if o0.isMem && o1.isReg then
         let s1 := o1.rmSize
         okOut (handleAvx512 inst ii.implicitZ (ret (third ++ [(0, OpRW.reset (fW + fMibRead) (s1 / 2 ^ shift)), (1, OpRW.reset fR s1)])))
